@@ -18,7 +18,7 @@ func zzReadOnlyOps(p ControlPacket) {
 	_ = zzSnap(p)
 }
 
-// ZZ_C11_det: a = shape. The packet is encoded under different map
+// ZZ_C11_det: a[0] = 1: all six orders (else three), a[1:] = shape. The packet is encoded under different map
 // iteration orders (the Go runtime randomises every iteration independently,
 // and differently in every process): all iterations in insertion order, all
 // reversed, alternating (consecutive passes over the same map see different
@@ -26,14 +26,18 @@ func zzReadOnlyOps(p ControlPacket) {
 // between, must be byte-identical and the operations must not change any
 // accessor value.
 func ZZ_C11_det(a []int) {
-	abs := zzGen(zzShapeOf(a))
+	abs := zzGen(zzShapeOf(a[1:]))
 	p := zzBuild(abs)
 	s0 := zzSnap(p)
 	var w1 zzSink
 	_, e1 := p.WriteTo(&w1)
 	zzAssert(e1 == nil, "WriteTo reports an error")
 	zzReadOnlyOps(p)
-	for _, mode := range []string{"", "rev", "alt", "rot1", "rot2", "rot3"} {
+	modes := []string{"rev", "alt", "rot1"}
+	if a[0] == 1 {
+		modes = []string{"", "rev", "alt", "rot1", "rot2", "rot3"}
+	}
+	for _, mode := range modes {
 		zzOrderMode(mode)
 		var w2 zzSink
 		_, e2 := p.WriteTo(&w2)
@@ -44,7 +48,6 @@ func ZZ_C11_det(a []int) {
 		} else {
 			zzAssert(zzBytesEq(w1.b, w2.b), "two encodings of the same packet differ")
 		}
-		zzReadOnlyOps(p)
 	}
 	zzReach("det")
 	zzViewEq(zzSnap(p), s0, "read-only operations changed an accessor value")
@@ -55,7 +58,7 @@ func ZZ_C11_det(a []int) {
 // the Go runtime randomises map iteration, so the same packet is encoded
 // many times until two encodings differ.
 func ZZ_C11_native(a []int) {
-	abs := zzGen(zzShapeOf(a))
+	abs := zzGen(zzShapeOf(a[1:]))
 	p := zzBuild(abs)
 	var first zzSink
 	p.WriteTo(&first)
